@@ -805,8 +805,10 @@ class GraphBuilder(BuilderBase):
         for name, default in default_attributes.items():
             if name not in attributes and default.value is not None:
                 attributes[name] = default
+        # Python constants given as inputs are promoted to values, as for `call`
+        adapted_args = [self._input_to_ir_value(arg) for arg in args]
         nodes, outputs = _inliner.instantiate(
-            graph, args, attributes, prefix=node_name_prefix
+            graph, adapted_args, attributes, prefix=node_name_prefix
         )
 
         # Track final output values so we can rename them separately.
